@@ -979,8 +979,8 @@ class xfunc_stddev(xfunc):
             # We have to use missing_counts or we would miss marking cells
             # which had missing values in their inputs.
             # We *also* have to use valid_counts or we would miss marking cells
-            # which had no inputs at all.
-            output_is_missing = (valid_counts == 0) | (missing_counts != 0)
+            # which had no inputs at all (or only one: no sample deviation).
+            output_is_missing = (valid_counts < 2) | (missing_counts != 0)
 
         stddevs = self.adjust_zeros(stddevs, self.null, condition=output_is_missing)
 
